@@ -397,6 +397,51 @@ def run_poly(c):
     return ck.result()
 
 
+# ----------------------------------------------------------------------------------------------- a plane and a collection of parallel lines
+@st.composite
+def pll_case(draw, tier="quick"):
+    k = draw(st.integers(2, 6))
+    return {"c": draw(st.integers(-9, 9)), "lines": [{"h": draw(st.integers(-6, 6)), "p": [draw(C.ints(5)), draw(C.ints(5))], "d": [draw(C.ints(4)), draw(C.ints(4))], "radial": draw(st.booleans()), "k": draw(st.sampled_from([2, 3, -1]))} for _ in range(k)],
+            "axis": draw(st.integers(0, 2)), "swap": draw(st.booleans())}
+
+
+def run_pll(c):
+    """the distance between a plane and the lines of a collection that are all parallel to it (lines inside parallel planes, some of them through
+    the axis perpendicular to the plane): position i is the distance between the two parallel planes, whatever the other lines of the collection
+    look like"""
+    ax = c["axis"] % 3
+    oa = [k for k in range(3) if k != ax]
+    rows, exp = [], []
+    for ln in c["lines"]:
+        p = np.zeros(3)
+        p[oa[0]], p[oa[1]], p[ax] = float(ln["p"][0]), float(ln["p"][1]), float(ln["h"])
+        q = p.copy()
+        if ln["radial"]:
+            if not np.any(p[oa]):
+                raise Skip("degenerate")
+            q[oa] = p[oa] * ln["k"]  # the line passes through the axis
+        else:
+            dvec = np.array([float(ln["d"][0]), float(ln["d"][1])])
+            if not np.any(dvec):
+                raise Skip("degenerate")
+            q[oa] = p[oa] + dvec
+        rows.append(np.asarray(Line(Point(*p), Point(*q)).array))
+        exp.append(abs(float(c["c"]) - float(ln["h"])))
+    nrm = np.zeros(4)
+    nrm[ax], nrm[3] = 1.0, -float(c["c"])
+    E = Plane(nrm)
+    L = LineCollection(np.stack(rows))
+    site = "dist:plane-and-collection-of-parallel-lines"
+    r, f = call(site, (lambda: dist(L, E)) if c["swap"] else (lambda: dist(E, L)))
+    if f:
+        return [f]
+    ck = Checker()
+    r = np.asarray(r, float)
+    if ck.check(r.shape == (len(exp),), site + ":shape", r.shape):
+        ck.check(bool(np.all(np.isfinite(r))) and np.allclose(r, exp, atol=1e-7), site + ":value", (r.tolist(), exp))
+    return ck.result()
+
+
 # ----------------------------------------------------------------------------------------------- angles
 ANG = ["points2", "lines2", "line_dir2", "points3", "lines3", "planes", "polygon_angles", "zero_angle"]
 ZERO = ["points2", "lines2", "line_dir2", "points3", "lines3", "line_dir3", "planes"]  # distinct objects enclosing the angle 0
@@ -623,6 +668,9 @@ LAWS = [
         "point-line/plane, plane-parallel line/plane, both orders, incident pairs, equal coordinate vectors of different kinds", shard=400),
     Law("dist_polytope", lambda tier: poly_case(tier), run_poly, lambda c: True, lambda c: [c["cfg"]] + (["derived-from-a-used-object"] if c.get("derive") else []), {"quick": 700, "thorough": 12000},
         "point-segment, point-polygon (2D boundary/outside, 3D anywhere), point-cuboid (outside/surface); Segment.length", shard=150),
+    Law("dist_plane_line_collection", lambda tier: pll_case(tier), run_pll, lambda c: len(c["lines"]) > 1, lambda c: [f"n{len(c['lines'])}"] + (["radial-and-other-lines"] if len({x["radial"] for x in c["lines"]}) > 1 else []),
+        {"quick": 800, "thorough": 10000}, "dist(plane, LineCollection) for lines parallel to the plane, lines through the perpendicular axis mixed with others: the distance of the parallel planes at every position", shard=200,
+        mandatory=("radial-and-other-lines",)),
     Law("angle", lambda tier: ang_case(tier), run_ang, lambda c: True, lambda c: [c["cfg"]] + ([c["iso"]] if c["iso"] else []) + ([ZERO[c["ang"] % len(ZERO)] + ":zero"] if c["cfg"] == "zero_angle" else []) + (["directions-in-3-space"] if c["cfg"] == "points3" and c.get("inf3") else []), {"quick": 2000, "thorough": 40000},
         "angle mod pi with README orientation in 2D (antisymmetric, isometry behaviour), cos^2 in 3D / planes; Polygon.angles", shard=400),
     Law("dist_isometry", lambda tier: iso_case(tier), run_iso, lambda c: True, lambda c: [f"{c['kind']}{c['d']}", "refl" if c["refl"] else "rot"], {"quick": 800, "thorough": 15000},
